@@ -301,12 +301,18 @@ func validateImportedLog(log ledger.Log) error {
 		if payload.Transaction.ID == nil {
 			return fmt.Errorf("log %d: transaction without id", *log.ID)
 		}
+		if err := validateImportedPostings(payload.Transaction.Postings); err != nil {
+			return fmt.Errorf("log %d: %w", *log.ID, err)
+		}
 	case ledger.RevertedTransaction:
 		if payload.RevertedTransaction.ID == nil || payload.RevertTransaction.ID == nil {
 			return fmt.Errorf("log %d: transaction without id", *log.ID)
 		}
 		if payload.RevertedTransaction.RevertedAt == nil {
 			return fmt.Errorf("log %d: reverted transaction without revert date", *log.ID)
+		}
+		if err := validateImportedPostings(payload.RevertTransaction.Postings); err != nil {
+			return fmt.Errorf("log %d: %w", *log.ID, err)
 		}
 	case ledger.SavedMetadata:
 		if err := validateImportedTarget(payload.TargetType, payload.TargetID); err != nil {
@@ -318,6 +324,17 @@ func validateImportedLog(log ledger.Log) error {
 		}
 	case nil:
 		return fmt.Errorf("log %d: missing data", *log.ID)
+	}
+	return nil
+}
+
+// validateImportedPostings only checks what the volume computation dereferences: the content of a
+// journal that was valid where it was exported is not judged again.
+func validateImportedPostings(postings ledger.Postings) error {
+	for i, posting := range postings {
+		if posting.Amount == nil {
+			return fmt.Errorf("posting %d: no amount defined", i)
+		}
 	}
 	return nil
 }
